@@ -516,6 +516,16 @@ def profInside2d (colls : List (Hit2 α)) (t : α) : Bool :=
   if colls.any (fun rc => eqB rc.t t) then false
   else (colls.filter fun rc => decide (t < rc.t)).length % 2 == 1
 
+/-- The flat-ray case of `profileCollider.RayCollisions`: every 2-D collision is reported. -/
+def profFlat (colls : List (Hit α)) (cb : Bool) : Nat × List (Hit α) :=
+  (colls.length, if cb then colls else [])
+
+/-- The general case of `profileCollider.RayCollisions`: the face at `minT` (if `f0`), the side collisions
+within `[minT, maxT]`, the face at `maxT` (if `f1`); `count++` and the callback are separate statements. -/
+def profGeneral (f0 f1 : Bool) (sides : List (Hit α)) (h0 h1 : Hit α) (cb : Bool) : Nat × List (Hit α) :=
+  ((if f0 then 1 else 0) + sides.length + (if f1 then 1 else 0),
+    if cb then (if f0 then [h0] else []) ++ sides ++ (if f1 then [h1] else []) else [])
+
 /-- `profileCollider.RayCollisions`.  `ray2 o d` = the calls the 2-D collider makes for the projected ray,
 `solid2` = `Solid2D.Contains`. -/
 def profileRay (ray2 : V2 α → V2 α → List (Hit2 α)) (solid2 : V2 α → Bool) (minZ maxZ : α)
@@ -528,7 +538,7 @@ def profileRay (ray2 : V2 α → V2 α → List (Hit2 α)) (solid2 : V2 α → B
     let lift := fun (rc : Hit2 α) => (⟨rc.t, ⟨rc.n.x, rc.n.y, 0⟩⟩ : Hit α)
     if isZero d.z then
       if o.z < minZ ∨ maxZ < o.z then (0, [])
-      else (colls.length, if cb then colls.map lift else [])
+      else profFlat (colls.map lift) cb
     else
       let t0 := (minZ - o.z) / d.z
       let t1 := (maxZ - o.z) / d.z
@@ -537,13 +547,9 @@ def profileRay (ray2 : V2 α → V2 α → List (Hit2 α)) (solid2 : V2 α → B
       let maxT := if swap then t0 else t1
       let minN : V3 α := if swap then ⟨0, 0, 1⟩ else ⟨0, 0, -1⟩
       let maxN : V3 α := if swap then ⟨0, 0, -1⟩ else ⟨0, 0, 1⟩
-      let f0 := decide (0 ≤ minT) && inside2d minT
-      let sides := colls.filter fun rc => decide (minT ≤ rc.t) && decide (rc.t ≤ maxT)
-      let f1 := decide (0 ≤ maxT) && inside2d maxT
-      let count := (if f0 then 1 else 0) + sides.length + (if f1 then 1 else 0)
-      let calls := (if f0 then [(⟨minT, minN⟩ : Hit α)] else []) ++ sides.map lift ++
-        (if f1 then [(⟨maxT, maxN⟩ : Hit α)] else [])
-      (count, if cb then calls else [])
+      profGeneral (decide (0 ≤ minT) && inside2d minT) (decide (0 ≤ maxT) && inside2d maxT)
+        ((colls.filter fun rc => decide (minT ≤ rc.t) && decide (rc.t ≤ maxT)).map lift)
+        ⟨minT, minN⟩ ⟨maxT, maxN⟩ cb
 
 /-- `profileCollider` as a collider (`FirstRayCollision` = min-callback over `RayCollisions`). -/
 def profileCollider (ray2 : V2 α → V2 α → List (Hit2 α)) (solid2 : V2 α → Bool) (minZ maxZ : α) :
